@@ -404,6 +404,11 @@ func handleStream(svr interface{}, serviceName string, desc *grpc.StreamDesc, st
 			tr.Details = statProto.Details
 		}
 
+		if _, merr := codec.Marshal(&tr); merr != nil {
+			// the trailer cannot be encoded (e.g. binary trailer metadata that is
+			// not valid UTF-8): never leave the reply without its trailer frame
+			tr = HttpTrailer{Code: int32(codes.Internal), Message: "failed to encode trailer: " + merr.Error()}
+		}
 		writeProtoMessage(w, codec, &tr, true)
 	}
 }
